@@ -54,6 +54,9 @@ def witness_search(prop, f, timeout=120):
     """returns (witnesses:list[dict], note)"""
     if not os.path.exists(REPLAY_BIN):
         return [], "witness search unavailable (replay binary not built)"
+    if _TIER == "thorough":
+        os.environ["VREPLAY_DEEP"] = "1"   # deeper bounds in every search (replay/src/*.rs: util::deep())
+        timeout = max(timeout, 900)
     rc, out, err = sh([REPLAY_BIN, "search", prop, f["site_item"] or "", f["clause"] or ""], timeout=timeout)
     ws = []
     for ln in out.splitlines():
@@ -139,7 +142,12 @@ def drop_known(prop, ws, announce=True):
 _ANNOUNCED = set()
 
 
+_TIER = "quick"
+
+
 def check(prop, tier, seed):
+    global _TIER
+    _TIER = tier
     t0 = time.time()
     if prop not in PROPS:
         print("UNDECIDED property=%s reason=not claimed (see MANIFEST.not_applicable)" % prop)
@@ -268,7 +276,7 @@ def check(prop, tier, seed):
         ws, note = witness_search(prop, fake, timeout=180)
         ws, known_b = drop_known(prop, ws)
         known += [(k, fake) for k in known_b if k["id"] not in [x["id"] for x, _ in known]]
-        bounded_note = "bounded stand-in (%s): %d witness(es)%s" % (P["bounded_standin"], len(ws), (" ; " + note) if note else "")
+        bounded_note = "bounded stand-in (%s)%s: %d witness(es)%s" % (P["bounded_standin"], " [thorough tier: one more symbol of string / template length, one more call of history, denser pairs of trees]" if tier == "thorough" else "", len(ws), (" ; " + note) if note else "")
         if ws:
             n += 1
             path = write_replay(prop, n, fake, ws, "all contracts verified; the BOUNDED search over the part of the code that is not under contract found this input", "")
